@@ -6,6 +6,7 @@ use h_common::{tool_error, Args};
 
 mod common;
 mod decode;
+mod framing;
 mod server;
 
 fn main() {
@@ -16,6 +17,7 @@ fn main() {
     match (mode.as_str(), model.as_str()) {
         ("replay", "hxserver") => server::replay(&args),
         ("replay", "hxdecode") => decode::replay(&args),
+        ("replay", "hxframing") => framing::replay(&args),
         _ => tool_error(&format!("unknown mode/model {mode}/{model}")),
     }
 }
